@@ -189,11 +189,14 @@ type rig struct {
 	closed chan struct{}
 }
 
-func newRig(r *run) (*rig, error) {
+func newRig(r *run) (*rig, error) { return newRigSized(r, 64, 0) }
+
+// newRigSized: streams of the given capacity, read by a consumer that takes `slow` per envelope
+func newRigSized(r *run, buffer int, slow time.Duration) (*rig, error) {
 	g := &rig{r: r, closed: make(chan struct{})}
 	g.cli, g.srv = pipe.New(0, false)
 	g.t = lime.VerifNewTCPTransport(g.cli, &lime.TCPConfig{}, false)
-	g.cc = lime.NewClientChannel(g.t, 64)
+	g.cc = lime.NewClientChannel(g.t, buffer)
 	runs.Store(g.t, r)
 	dec := json.NewDecoder(g.srv)
 	est := make(chan error, 1)
@@ -235,6 +238,9 @@ func newRig(r *run) (*rig, error) {
 		for resp := range g.cc.RespCmdChan() {
 			uid, _ := strconv.Atoi(resp.Metadata["uid"])
 			r.log(Event{K: "stream", UID: uid, ID: resp.ID})
+			if slow > 0 {
+				time.Sleep(slow)
+			}
 		}
 	}()
 	return g, nil
